@@ -30,6 +30,9 @@ GenSpec == MCInit /\ [][GenNext]_<<vars, ideal>>
 allvars == <<vars, ideal>>
 NoApplyAfterFault ==        \* a replica goes on applying after one of its applies failed (the store has a hole)
     [][~(\E p \in Peers : ApplyNext(p) /\ broken[p])]_allvars
+NoVisibleHole ==            \* ... after having served a state, and the store then equals no prefix result at all
+    [][~(\E p \in Peers : ApplyNext(p) /\ broken[p] /\ inited[p]
+            /\ \A n \in 0..Len(log) : fsm'[p] # ApplyPrefixOf(log, n))]_allvars
 NoInstallOverDeleted ==     \* a snapshot installed on a replica holding a since-unpinned CID
     [][~(\E p, q \in Peers : InstallSnapshot(p, q)
             /\ \E c \in Cids : fsm[p][c] # NONE /\ snap[q].data[c] = NONE)]_allvars
